@@ -1,5 +1,6 @@
 import PyxModel.Sexp
 import PyxModel.Load
+import PyxModel.LoadApi
 import Driver.LoadCodec
 
 /-! driver commands of property C03
@@ -8,8 +9,10 @@ import Driver.LoadCodec
          (error)                                   the build raises
          (ok D ((kind attrs indices rows)…) ((rel tgt-lists src-lists)…))
                                                    D = T/F, the list is inside the model's domain
-    (c03-api (stmt…) ((kind val…)…))   schema statements + rows created through `new`
-    (c03-clone (stmt…) ((kind idx)…))  load, then clone the instances in the given order
+    (c03-case ((stmt…) (stmt…) …) none)             = ((answer…) none)
+    (c03-case ((stmt…) …) ((kind pos val…)…))       additionally, on the FIRST statement list: the rows created
+         through `new` in the given order, and the loaded instances (kind, position) cloned in that order:
+         = ((answer…) ((outcomes classes assocs) (outcomes classes assocs)))
 -/
 namespace Pyx.Driver.C03
 open Pyx Pyx.Sexp Pyx.Load Pyx.Driver.LoadCodec
@@ -22,8 +25,42 @@ def loadAnswer (x : Sexp) : Sexp :=
     | none => list [sym "error"]
     | some m => list [sym "ok", ofBool (inDomain ss), encClasses m, encAssocs m]
 
+def encOutcome : Outcome → Sexp
+  | .ok => sym "ok"
+  | .relateError => sym "RelateException"
+  | .unknownLink => sym "UnknownLinkException"
+  | .unmodelled => sym "unmodelled"
+
+/-- rows of an API-built metamodel are stored without their referential values already -/
+def encApiCls (c : Cls) : Sexp :=
+  list [str c.kind,
+        list (c.attrs.map (fun p => list [str p.1, encTy p.2])),
+        list (c.indices.map (fun p => list [str p.1, encStrs p.2])),
+        list (c.rows.map encRow)]
+
+def encApi (r : Model × List Outcome) : Sexp :=
+  list [list (r.2.map encOutcome), list (r.1.classes.map encApiCls), encAssocs r.1]
+
+def decOrder : Sexp → Option (List (String × Nat × List Val))
+  | list xs => xs.mapM (fun x => match x with
+      | list (str k :: int p :: vs) => (vs.mapM decVal).map (fun vs => (k, p.toNat, vs))
+      | _ => none)
+  | _ => none
+
+def caseAnswer (vs : List Sexp) (api : Sexp) : Sexp :=
+  let answers := list (vs.map loadAnswer)
+  match api with
+  | sym "none" => list [answers, sym "none"]
+  | _ =>
+    match vs.head? >>= decStmts, decOrder api with
+    | some ss, some order =>
+      list [answers, list [encApi (apiBuild ss (order.map (fun o => (o.1, o.2.2)))),
+                           encApi (cloneBuild ss (order.map (fun o => (o.1, o.2.1))))]]
+    | _, _ => list [answers, sym "bad-api"]
+
 def handle : List Sexp → Option Sexp
   | sym "c03-load" :: vs => some (list (vs.map loadAnswer))
+  | [sym "c03-case", list vs, api] => some (caseAnswer vs api)
   | _ => none
 
 end Pyx.Driver.C03
